@@ -114,6 +114,12 @@ func (vt *Model) decset(params [][]int) {
 			vt.mode.decarm = true
 		case 25:
 			vt.mode.dectcem = true
+		case 47, 1047:
+			// Use the alternate screen as it is: unlike 1049 the
+			// cursor is not saved and nothing is cleared
+			vt.activeScreen = vt.altScreen
+			vt.mode.smcup = true
+			vt.mode.altScroll = true
 		case 1000:
 			vt.mode.mouseButtons = true
 		case 1002:
@@ -124,6 +130,8 @@ func (vt *Model) decset(params [][]int) {
 			vt.mode.mouseSGR = true
 		case 1007:
 			vt.mode.altScroll = true
+		case 1048:
+			vt.decsc()
 		case 1049:
 			vt.decsc()
 			vt.activeScreen = vt.altScreen
@@ -160,6 +168,14 @@ func (vt *Model) decrst(params [][]int) {
 			vt.mode.decarm = false
 		case 25:
 			vt.mode.dectcem = false
+		case 47, 1047:
+			if vt.mode.smcup && param[0] == 1047 {
+				// 1047 clears the alternate screen when leaving it
+				vt.ed(2)
+			}
+			vt.activeScreen = vt.primaryScreen
+			vt.mode.smcup = false
+			vt.mode.altScroll = false
 		case 1000:
 			vt.mode.mouseButtons = false
 		case 1002:
@@ -178,6 +194,8 @@ func (vt *Model) decrst(params [][]int) {
 			vt.activeScreen = vt.primaryScreen
 			vt.mode.smcup = false
 			vt.mode.altScroll = false
+			vt.decrc()
+		case 1048:
 			vt.decrc()
 		case 2004:
 			vt.mode.paste = false
